@@ -6,9 +6,9 @@ import "github.com/mimecast/dtail/internal/io/line"
 
 // Accessors for the /verif harness (add-only, compiled only with -tags verif).
 
-func (h *ServerHandler) VerifLines() chan *line.Line        { return h.lines }
-func (h *ServerHandler) VerifServerMessages() chan string   { return h.serverMessages }
-func (h *ServerHandler) VerifMaprMessages() chan string     { return h.maprMessages }
+func (h *ServerHandler) VerifLines() chan *line.Line      { return h.lines }
+func (h *ServerHandler) VerifServerMessages() chan string { return h.serverMessages }
+func (h *ServerHandler) VerifMaprMessages() chan string   { return h.maprMessages }
 func (h *ServerHandler) VerifSetModes(plain, serverless, quiet bool) {
 	h.plain, h.serverless, h.quiet = plain, serverless, quiet
 }
